@@ -717,6 +717,12 @@ func isSlicesDelete(v ssa.Value) bool {
 	if !ok {
 		return false
 	}
+	// append(x[:i], x[i+1:]...): the removal idiom
+	if b, isB := cl.Call.Value.(*ssa.Builtin); isB && b.Name() == "append" && len(cl.Call.Args) == 2 {
+		s0, ok0 := core.Strip(cl.Call.Args[0]).(*ssa.Slice)
+		s1, ok1 := core.Strip(cl.Call.Args[1]).(*ssa.Slice)
+		return ok0 && ok1 && s0.High != nil && s1.Low != nil && core.Same(s0.X, s1.X)
+	}
 	id, ok := core.Callee(&cl.Call)
 	return ok && id.Pkg == "slices" && strings.HasPrefix(id.Name, "Delete")
 }
